@@ -10,6 +10,10 @@ CHECKS = {
   text="Solver-decided, bounded: for all pairs of values within the shape bounds (independent shapes and all single-field variants, every leaf symbolic) the real Equal/AssertEqual functions agree with byte equality of the real encodings, and the real sim backend's Sign/Verify (over an ideal hash and signature scheme) accept exactly (same signer, equal state). Not a proof: larger dimensions and longer amounts are outside.",
   note="Trusted: go/ssa lowering, the interpreter (validated per run against native execution on random vectors), z3; idealised SHA-256/ECDSA; representation assumptions listed in the evidence.",
   ref="DESIGN.md §3 C15"),
+ "C17": dict(
+  text="Solver-decided, bounded: with an ideal (collision-free) SHA-256 the real NewParams/CalcID give equal IDs for two parameter sets exactly when all ID-relevant fields are equal, for every single-field variant and for independent pairs within the shape bounds; Clone and Encode/Decode preserve ID and fields; NewParams refuses exactly the documented invalid parameters at the exact boundaries; machine-created states carry params.ID().",
+  note="Trusted: go/ssa lowering, the interpreter (translator-validated per run), z3; hash idealisation (equal digest iff equal byte stream fed to the hasher by the real CalcID).",
+  ref="DESIGN.md §3 C17"),
 }
 
 NOT_APPLICABLE = {
